@@ -3,7 +3,7 @@
    ISA specification Isa/X86.v, for ALL values.  The per-encoding breadth part is the in-kernel differential
    check of Isa/C01Check.v (processor + specification as oracles). *)
 From Coq Require Import ZArith List Bool NArith.
-From Falcon Require Import Base.Res IL.Const IL.ConstSpec IL.Expr IL.Func Exec.Sem Isa.X86 Isa.X86Lift Isa.X86Mirror Isa.X86Proofs Isa.X86Sim Isa.C01Check Isa.X86Tie Isa.X86SimMem Isa.X86SimStack Isa.X86SimCarry Isa.X86SimMore Isa.X86SimXchg Isa.X86SimMul Isa.X86SimShift Isa.X86SimRot Isa.X86SimCtl Isa.X86SimBt.
+From Falcon Require Import Base.Res IL.Const IL.ConstSpec IL.Expr IL.Func Exec.Sem Isa.X86 Isa.X86Lift Isa.X86Mirror Isa.X86Proofs Isa.X86Sim Isa.C01Check Isa.X86Tie Isa.X86SimMem Isa.X86SimStack Isa.X86SimCarry Isa.X86SimMore Isa.X86SimXchg Isa.X86SimMul Isa.X86SimShift Isa.X86SimRot Isa.X86SimCtl Isa.X86SimBt Isa.X86SimCall.
 Import ListNotations.
 Local Open Scope Z_scope.
 
@@ -284,7 +284,7 @@ Theorem tie_transfers : forall m addr len i g succ,
 Proof. exact X86Tie.tie_transfers. Qed.
 Print Assumptions tie_transfers.
 Theorem ck_tie_is_syntactic_tie : forall c g succ,
-  tc_lift c = LOk g succ -> tc_mirror c = X86Mirror.mirror_instr (tc_mode c) (tc_addr c) (tc_ins c) ->
+  tc_lift c = LOk g succ -> tc_mirror c = X86Mirror.mirror_instr (tc_mode c) (tc_addr c) (tc_len c) (tc_ins c) ->
   (exists r, tc_mirror c = Some r) -> fst (ck c) = true ->
   syntactic_tie (tc_mode c) (tc_addr c) (tc_len c) (tc_ins c) g succ = true.
 Proof. exact X86Tie.ck_tie_is_syntactic_tie. Qed.
@@ -574,3 +574,17 @@ Theorem bt_sim : forall m addr len (o : btop) sz dst src,
   sim_when (X86SimMul.opnd_nw sz dst) m addr len (IBt o sz dst src).
 Proof. exact X86SimBt.bt_sim. Qed.
 Print Assumptions bt_sim.
+
+(* 23. round 8: call rel and call r|[m] (register other than the stack pointer): the return address addr + len is pushed
+   (mirror_instr takes the instruction length since this round), then the Branch.  The form `call rsp` is mirrored and tied
+   (the target is copied to a temporary before the push, lifter fix e33b49f) but has no theorem. *)
+Theorem call_rel_sim : forall m addr len t,
+  0 <= t < 2 ^ wordsz m -> 0 <= addr + len < 2 ^ wordsz m ->
+  sim_when (X86SimStack.push_no_wrap m (wordsz m)) m addr len (ICallRel t).
+Proof. exact X86SimCall.call_rel_sim. Qed.
+Print Assumptions call_rel_sim.
+Theorem call_ind_sim : forall m addr len src,
+  X86SimMul.opnd_ok m (wordsz m) src -> isreg src = true \/ is_mem src = true -> src <> OReg 4 -> 0 <= addr + len < 2 ^ wordsz m ->
+  sim_when (fun s => X86SimMul.opnd_nw (wordsz m) src s /\ X86SimStack.push_no_wrap m (wordsz m) s) m addr len (ICallInd src).
+Proof. exact X86SimCall.call_ind_sim. Qed.
+Print Assumptions call_ind_sim.
